@@ -81,6 +81,10 @@ claimed = {
    text="F-route (base path x method configuration, path shapes x verbs, method-name shapes on default routes, query parameters on body verbs) plus the core units: for each RPC five observations are taken from the real artefacts (both clients via two probe requests with distinctive values, TS RouteDescriptors, OpenAPI operation, Go server dispatch of every artefact's concrete request) and compared pairwise for verb, path template and field placement; each RPC must be exactly one OpenAPI operation. Exhaustive over the bounded route-configuration space.",
    note="Templates are compared modulo variable names; a 400 from the Go server counts as routed (refusals are C01/C02's subject).",
    tech="exhaustive enumeration of route configurations, differential comparison of five generators' observable routes", ref="DESIGN.md section 8 C03"),
+ "C07": dict(
+   text="Every Go-server 200 body for the enumerated response values, every enumerated request value in contract form and every object the emitted TS server handed to a handler (both client pairings) is checked for membership in the TypeScript type that the emitted modules declare for that message, with excess-property rejection; ts-client and ts-server declarations are compared message by message. The TS side is read from the emitted declarations by M-ts (parser + membership relation over the emitted subset). Exhaustive over the bounded value spaces of C06/C08.",
+   note="No TypeScript type checker exists in the sandbox; typing is decided by M-ts for the emitted subset (interfaces, aliases, literal unions, object literals, intersections via disjunctive normal form, arrays, Record, optional members, null unions). Omitted members, wrong types and undeclared members are reported as three separate symptoms.",
+   tech="exhaustive enumeration of wire values checked against a model of the emitted TypeScript type grammar", ref="DESIGN.md section 8 C07"),
 }
 NA_REASON = "check not built yet (build in progress; see DESIGN.md section 14)"
 checks = []
